@@ -47,6 +47,8 @@ func (n *node[T]) buildIndexes() {
 
 	if n.indexes == nil {
 		n.indexes = make(map[byte]int, indexesSize)
+	} else {
+		clear(n.indexes) // 删除节点之后，原有的索引不再有效。
 	}
 
 	for index, node := range n.children {
@@ -160,6 +162,7 @@ func (n *node[T]) find(pattern string) *node[T] {
 func (n *node[T]) clean(prefix string) {
 	if len(prefix) == 0 {
 		n.children = n.children[:0]
+		n.buildIndexes()
 		return
 	}
 
